@@ -205,9 +205,13 @@ func blockedState(s string) bool {
 }
 
 func dumpAll() string {
-	buf := make([]byte, 16<<20)
-	n := runtime.Stack(buf, true)
-	return string(buf[:n])
+	for size := 256 << 10; ; size *= 4 {
+		buf := make([]byte, size)
+		n := runtime.Stack(buf, true)
+		if n < size || size >= 64<<20 {
+			return string(buf[:n])
+		}
+	}
 }
 
 func signature(gs []Goroutine) string {
